@@ -1,13 +1,512 @@
-// Package c08 is the harness for property C08 (runs the real kapacitor code, prints op lines).
+// Package c08 is the harness for property C08 (alert state survives restart).
+//
+// It runs the REAL services/alert.Service (and, in node mode, a REAL TaskMaster with a stream task whose alert
+// node has an anonymous and/or a named topic) over a REAL Bolt file owned by the harness. The topic-state
+// namespace is wrapped so that a consistent copy of the Bolt file is taken right before every Update
+// transaction begins and right after it ended ("crash points"). For every requested crash point a FRESH service
+// (and TaskMaster + task) is opened on the copy, the remaining operations are processed, and the topic API state,
+// the disk content and the handler-observed events of both runs are printed.
+//
+// Case format (op lines; observations after " => "):
+//
+//	mode svc <topic>...                       service-level history over these topics
+//	mode node <anon> <named> <sco> <norec>    one alert node: has handlers / .topic('named') / .stateChangesOnly() / .noRecoveries()
+//	collect <T> <id> <level> <time>           Service.Collect            => tx <n>
+//	update <T> <id> <level> <time>            Service.UpdateEvent        => tx <n>
+//	close <T> | restore <T> | deltopic <T>    CloseTopic / RestoreTopic / DeleteTopic
+//	point <id> <level> <time>                 a data point whose level lambdas evaluate to <level>  => tx <n>
+//	taskrestart                               StopTask + StartTask (no process death)
+//	uninterrupted                             => mem <dump> disk <dump> told <dump>
+//	crash <k> <m> <pre|post>                  restart on the snapshot taken before/after the m-th transaction of op k
+//	                                          (m = 0, post: after op k completed) and continue with ops k+1..
+//	                                          => resume <dump> rdisk <dump> final <dump> fdisk <dump> toldb <dump> tolda <dump>
 package c08
 
 import (
+	"errors"
 	"fmt"
 	"os"
+	"path/filepath"
+	"runtime"
+	"strconv"
+	"strings"
+	"sync"
+	"time"
+
+	imodels "github.com/influxdata/influxdb/models"
+	"github.com/influxdata/kapacitor"
+	"github.com/influxdata/kapacitor/alert"
+	alertservice "github.com/influxdata/kapacitor/services/alert"
+	"github.com/influxdata/kapacitor/services/httpd"
+	"github.com/influxdata/kapacitor/services/httppost"
+	"github.com/influxdata/kapacitor/uuid"
+
+	"verifharness/kit"
 )
 
-// Run is replaced by the property's harness.
+const (
+	taskID     = "c08task"
+	tmID       = "verif"
+	anonTopic  = tmID + ":" + taskID + ":alert2"
+	namedTopic = "named"
+	syncID     = "zz-sync"
+)
+
+// ---- trivial fakes (kit keeps its own unexported) ----
+
+type serverInfo struct{ c, s uuid.UUID }
+
+func (i serverInfo) ClusterID() uuid.UUID    { return i.c }
+func (i serverInfo) ServerID() uuid.UUID     { return i.s }
+func (i serverInfo) Hostname() string        { return "localhost" }
+func (i serverInfo) Version() string         { return "verif" }
+func (i serverInfo) Product() string         { return "kapacitor" }
+func (i serverInfo) Platform() string        { return "verif" }
+func (i serverInfo) NumTasks() int64         { return 0 }
+func (i serverInfo) NumEnabledTasks() int64  { return 0 }
+func (i serverInfo) NumSubscriptions() int64 { return 0 }
+func (i serverInfo) Uptime() time.Duration   { return 0 }
+
+type taskStore struct{}
+
+func (taskStore) SaveSnapshot(string, *kapacitor.TaskSnapshot) error { return nil }
+func (taskStore) HasSnapshot(string) bool                            { return false }
+func (taskStore) LoadSnapshot(string) (*kapacitor.TaskSnapshot, error) {
+	return nil, errors.New("not implemented")
+}
+
+type deadman struct{}
+
+func (deadman) Interval() time.Duration { return 0 }
+func (deadman) Threshold() float64      { return 0 }
+func (deadman) Id() string              { return "" }
+func (deadman) Message() string         { return "" }
+func (deadman) Global() bool            { return false }
+
+var httpdOnce sync.Once
+var sharedHTTPD *httpd.Service
+
+func httpdService() *httpd.Service {
+	httpdOnce.Do(func() {
+		cfg := httpd.NewConfig()
+		cfg.BindAddress = "127.0.0.1:0"
+		cfg.LogEnabled = false
+		sharedHTTPD = httpd.NewService(cfg, "localhost", nil, kit.Diag().NewHTTPDHandler())
+		if err := sharedHTTPD.Open(); err != nil {
+			panic(err)
+		}
+	})
+	return sharedHTTPD
+}
+
+// ---- one running "process": store + alert service (+ TaskMaster + task) ----
+
+type caseCfg struct {
+	node                   bool
+	topics                 []string
+	anon, named, sco, norec bool
+	logPath                string
+}
+
+func (c *caseCfg) script() string {
+	s := "stream\n  |from().measurement('m').groupBy('id')\n  |alert()\n    .id('{{ index .Tags \"id\" }}')\n" +
+		"    .info(lambda: \"v\" >= 1)\n    .warn(lambda: \"v\" >= 2)\n    .crit(lambda: \"v\" >= 3)\n"
+	if c.named {
+		s += "    .topic('" + namedTopic + "')\n"
+	}
+	if c.anon {
+		s += "    .log('" + c.logPath + "')\n"
+	}
+	if c.sco {
+		s += "    .stateChangesOnly()\n"
+	}
+	if c.norec {
+		s += "    .noRecoveries()\n"
+	}
+	return s
+}
+
+type proc struct {
+	cfg  *caseCfg
+	st   *snapStore
+	as   *alertservice.Service
+	tm   *kapacitor.TaskMaster
+	et   *kapacitor.ExecutingTask
+	rc   *recs
+	sent int64
+}
+
+func openProc(cfg *caseCfg, dbPath string) (*proc, error) {
+	st, err := openStore(dbPath)
+	if err != nil {
+		return nil, err
+	}
+	ds := kit.Diag()
+	as := alertservice.NewService(ds.NewAlertServiceHandler(), nil, 0)
+	as.PersistTopics = true
+	as.StorageService = st
+	as.HTTPDService = httpdService()
+	if err := as.Open(); err != nil {
+		st.db.Close()
+		return nil, err
+	}
+	p := &proc{cfg: cfg, st: st, as: as, rc: newRecs(cfg.topics)}
+	p.rc.registerAll(as)
+	if cfg.node {
+		tm := kapacitor.NewTaskMaster(tmID, serverInfo{uuid.New(), uuid.New()}, ds.NewKapacitorHandler())
+		tm.HTTPDService = httpdService()
+		tm.TaskStore = taskStore{}
+		tm.DeadmanService = deadman{}
+		tm.HTTPPostService, _ = httppost.NewService(nil, ds.NewHTTPPostHandler())
+		tm.AlertService = as
+		if err := tm.Open(); err != nil {
+			p.close()
+			return nil, err
+		}
+		p.tm = tm
+		if err := p.startTask(); err != nil {
+			p.close()
+			return nil, err
+		}
+	}
+	return p, nil
+}
+
+func (p *proc) startTask() error {
+	task, err := p.tm.NewTask(taskID, p.cfg.script(), kapacitor.StreamTask, []kapacitor.DBRP{{Database: "db", RetentionPolicy: "rp"}}, 0, nil)
+	if err != nil {
+		return err
+	}
+	et, err := p.tm.StartTask(task)
+	if err != nil {
+		return err
+	}
+	p.et = et
+	p.sent = 0
+	// runAlert (its own goroutine) registers the node's handlers and restores the anonymous topic; wait for it by
+	// pushing a no-op point through the node.
+	return p.barrier()
+}
+
+func (p *proc) alertCollected() int64 {
+	st, err := p.et.ExecutionStats()
+	if err != nil {
+		return -1
+	}
+	for name, m := range st.NodeStats {
+		if strings.HasPrefix(name, "alert") {
+			if v, ok := m["collected"].(int64); ok {
+				return v
+			}
+		}
+	}
+	return -1
+}
+
+func (p *proc) write(id string, v int64, t int64) error {
+	pt, err := imodels.NewPoint("m", imodels.NewTags(map[string]string{"id": id}), imodels.Fields{"v": v}, time.Unix(0, t).UTC())
+	if err != nil {
+		return err
+	}
+	p.sent++
+	return p.tm.WritePoints("db", "rp", imodels.ConsistencyLevelAll, []imodels.Point{pt})
+}
+
+// barrier sends an OK point of a group nobody alerts on and waits until the alert node has TAKEN it from its
+// input edge: the node is single threaded, so everything sent before has been processed completely.
+func (p *proc) barrier() error {
+	if err := p.write(syncID, 0, 1); err != nil {
+		return err
+	}
+	deadline := time.Now().Add(20 * time.Second)
+	for i := 0; ; i++ {
+		if p.alertCollected() >= p.sent {
+			return nil
+		}
+		if time.Now().After(deadline) {
+			return fmt.Errorf("alert node did not take %d messages in time", p.sent)
+		}
+		if i < 200 {
+			runtime.Gosched()
+		} else {
+			time.Sleep(50 * time.Microsecond)
+		}
+	}
+}
+
+func (p *proc) stopTask() error {
+	if p.et == nil {
+		return nil
+	}
+	if p.cfg.anon {
+		p.rc.retire(p.as, anonTopic)
+	}
+	err := p.tm.StopTask(taskID)
+	p.et = nil
+	return err
+}
+
+// close ends the process gracefully; every handler queue is drained (so the logs are complete).
+func (p *proc) close() {
+	if p.tm != nil {
+		p.stopTask()
+		p.tm.Close()
+	}
+	p.as.Close()
+	p.st.db.Close()
+}
+
+func un(s string) string { v, _ := kit.Unesc(s); return v }
+func atoi(s string) int64 { v, _ := strconv.ParseInt(s, 10, 64); return v }
+
+func mkEvent(topic, id string, level, t int64) alert.Event {
+	return alert.Event{Topic: topic, State: alert.EventState{ID: id, Level: alert.Level(level), Time: time.Unix(0, t).UTC()}}
+}
+
+// apply executes one history op on the running process.
+func (p *proc) apply(t []string) error {
+	switch t[0] {
+	case "collect":
+		return p.as.Collect(mkEvent(un(t[1]), un(t[2]), atoi(t[3]), atoi(t[4])))
+	case "update":
+		return p.as.UpdateEvent(un(t[1]), mkEvent("", un(t[2]), atoi(t[3]), atoi(t[4])).State)
+	case "close":
+		p.rc.retire(p.as, un(t[1]))
+		err := p.as.CloseTopic(un(t[1]))
+		p.rc.register(p.as, un(t[1]))
+		return err
+	case "restore":
+		return p.as.RestoreTopic(un(t[1]))
+	case "deltopic":
+		p.rc.retire(p.as, un(t[1]))
+		err := p.as.DeleteTopic(un(t[1]))
+		p.rc.register(p.as, un(t[1]))
+		return err
+	case "point":
+		if err := p.write(un(t[1]), atoi(t[2]), atoi(t[3])); err != nil {
+			return err
+		}
+		return p.barrier()
+	case "taskrestart":
+		if err := p.stopTask(); err != nil {
+			return err
+		}
+		p.rc.registerAll(p.as)
+		return p.startTask()
+	}
+	return fmt.Errorf("unknown op %q", t[0])
+}
+
+func isHistoryOp(s string) bool {
+	switch s {
+	case "collect", "update", "close", "restore", "deltopic", "point", "taskrestart":
+		return true
+	}
+	return false
+}
+
+type snapInfo struct {
+	path   string
+	counts map[string]int
+}
+
+func strip(line string) string {
+	if i := strings.Index(line, " => "); i >= 0 {
+		return line[:i]
+	}
+	return line
+}
+
+// execCase runs one case and returns its lines with observations.
+func execCase(lines []string) (out []string, err error) {
+	dir := caseDir()
+	defer os.RemoveAll(dir)
+	cfg := &caseCfg{logPath: filepath.Join(dir, "alert.log")}
+	var body [][]string
+	var raw []string
+	for _, l := range lines {
+		l = strip(l)
+		t := strings.Fields(l)
+		if len(t) == 0 {
+			continue
+		}
+		if t[0] == "mode" {
+			if len(t) >= 2 && t[1] == "svc" {
+				for _, x := range t[2:] {
+					cfg.topics = append(cfg.topics, un(x))
+				}
+			} else if len(t) == 6 && t[1] == "node" {
+				cfg.node = true
+				cfg.anon, cfg.named, cfg.sco, cfg.norec = t[2] == "1", t[3] == "1", t[4] == "1", t[5] == "1"
+				if cfg.anon {
+					cfg.topics = append(cfg.topics, anonTopic)
+				}
+				if cfg.named {
+					cfg.topics = append(cfg.topics, namedTopic)
+				}
+			} else {
+				return nil, fmt.Errorf("bad mode line %q", l)
+			}
+			out = append(out, l)
+			continue
+		}
+		body = append(body, t)
+		raw = append(raw, l)
+	}
+	var ops [][]string
+	for _, t := range body {
+		if isHistoryOp(t[0]) {
+			ops = append(ops, t)
+		}
+	}
+
+	// ---- run 1: the uninterrupted run, with a snapshot at every transaction boundary ----
+	p, err := openProc(cfg, filepath.Join(dir, "main.db"))
+	if err != nil {
+		return nil, err
+	}
+	snaps := map[string]snapInfo{}
+	cur, txm := 0, 0
+	take := func(k, m int, phase string) {
+		path := snapPath(dir, k, m, phase)
+		if e := p.st.snapshot(path); e != nil {
+			panic(e)
+		}
+		snaps[fmt.Sprintf("%d/%d/%s", k, m, phase)] = snapInfo{path: path, counts: p.rc.counts(p.as)}
+	}
+	p.st.setHooks(func() { txm++; take(cur, txm, "pre") }, func() { take(cur, txm, "post") })
+	opObs := make([]string, len(ops))
+	for k, t := range ops {
+		cur, txm = k, 0
+		func() {
+			defer func() {
+				if r := recover(); r != nil {
+					opObs[k] = "panic"
+				}
+			}()
+			if e := p.apply(t); e != nil {
+				opObs[k] = fmt.Sprintf("tx %d err", txm)
+				return
+			}
+			opObs[k] = fmt.Sprintf("tx %d", txm)
+		}()
+		take(k, 0, "post")
+	}
+	p.st.setHooks(nil, nil)
+	unMem, unDisk := memDump(p.as, cfg.topics), diskDump(p.st, cfg.topics)
+	p.close()
+	unTold := p.rc.render(nil)
+	rc1 := p.rc
+
+	// ---- per requested crash point: restart on the snapshot, continue ----
+	ki := 0
+	for i, t := range body {
+		switch {
+		case isHistoryOp(t[0]):
+			out = append(out, raw[i]+" => "+opObs[ki])
+			ki++
+		case t[0] == "uninterrupted":
+			out = append(out, fmt.Sprintf("%s => mem %s disk %s told %s", raw[i], unMem, unDisk, unTold))
+		case t[0] == "crash" && len(t) == 4:
+			k, m := int(atoi(t[1])), int(atoi(t[2]))
+			sn, ok := snaps[fmt.Sprintf("%d/%d/%s", k, m, t[3])]
+			if !ok {
+				out = append(out, raw[i]+" => none")
+				continue
+			}
+			obs, e := restartRun(cfg, sn, ops, k, rc1, filepath.Join(dir, fmt.Sprintf("re-%d.db", i)))
+			if e != nil {
+				return nil, e
+			}
+			out = append(out, raw[i]+" => "+obs)
+		default:
+			return nil, fmt.Errorf("bad line %q", raw[i])
+		}
+	}
+	return out, nil
+}
+
+func restartRun(cfg *caseCfg, sn snapInfo, ops [][]string, k int, rc1 *recs, dbPath string) (obs string, err error) {
+	data, err := os.ReadFile(sn.path)
+	if err != nil {
+		return "", err
+	}
+	if err := os.WriteFile(dbPath, data, 0600); err != nil {
+		return "", err
+	}
+	defer func() {
+		if r := recover(); r != nil {
+			obs, err = "panic", nil
+		}
+	}()
+	p, err := openProc(cfg, dbPath)
+	if err != nil {
+		return "", err
+	}
+	resume, rdisk := memDump(p.as, cfg.topics), diskDump(p.st, cfg.topics)
+	for _, t := range ops[k+1:] {
+		if e := p.apply(t); e != nil {
+			p.close()
+			return "err", nil
+		}
+	}
+	final, fdisk := memDump(p.as, cfg.topics), diskDump(p.st, cfg.topics)
+	p.close()
+	os.Remove(dbPath)
+	return fmt.Sprintf("resume %s rdisk %s final %s fdisk %s toldb %s tolda %s",
+		resume, rdisk, final, fdisk, rc1.render(sn.counts), p.rc.render(nil)), nil
+}
+
+func emit(out *kit.Out, id string, lines []string) {
+	out.Line("case", id)
+	for _, l := range lines {
+		out.Line(l)
+	}
+	out.Line("end")
+}
+
+func runAndEmit(out *kit.Out, id string, lines []string) int {
+	res, err := execCase(lines)
+	if err != nil {
+		fmt.Fprintf(os.Stderr, "c08: case %s: %v\n", id, err)
+		out.Line("case", id)
+		for _, l := range lines {
+			out.Line(l)
+		}
+		out.Flush()
+		return 4
+	}
+	emit(out, id, res)
+	return 0
+}
+
+// Run: `vh-c08 -seed S -n N [-tier thorough]` generates; `vh-c08 -ops file` re-executes the cases of a file.
 func Run(args []string) int {
-	fmt.Fprintln(os.Stderr, "c08: harness not implemented yet")
-	return 3
+	f := kit.ParseFlags(args)
+	out := kit.NewOut()
+	defer out.Flush()
+	if f.Ops != "" {
+		lines, err := kit.ReadLines(f.Ops)
+		if err != nil {
+			fmt.Fprintln(os.Stderr, err)
+			return 2
+		}
+		var cur []string
+		id := ""
+		for _, l := range lines {
+			t := strings.Fields(l)
+			switch {
+			case len(t) == 2 && t[0] == "case":
+				id, cur = t[1], nil
+			case len(t) == 1 && t[0] == "end":
+				if rc := runAndEmit(out, id, cur); rc != 0 {
+					return rc
+				}
+			default:
+				cur = append(cur, l)
+			}
+		}
+		return 0
+	}
+	return generate(out, f)
 }
